@@ -377,7 +377,10 @@ func (s *Sys) Apply(op Op, live bool) (obs string) {
 			if !stop {
 				s.violate("C02", "nil-without-stop", "nil response without stop")
 			}
-			if was {
+			if s.ro {
+				// with an unwritable database declining to answer is a legitimate choice: only
+				// the safety clauses (what a reply may contain, no crash) stay in force
+			} else if was {
 				s.violate("C02", "bound-client-not-served", fmt.Sprintf("client %s is bound to %s but got no reply", op.MAC, known))
 			} else if !full {
 				s.violate("C02", "no-reply-with-free-addresses", fmt.Sprintf("unknown client %s got no reply although only %d of %d addresses are bound", op.MAC, s.nBound(), s.capacity()))
